@@ -90,8 +90,8 @@ META = {
         "note": "Trusted: go-version NewVersion/Compare models (replayed natively against the real library on every witness), engine-only models for OpenGtp5g / os.ReadFile / yaml.Unmarshal / govalidator.ValidateStruct (parts 2 and 3 have no native replay). The configuration-validation half of the statement is outside the claim.",
     },
     "C07": {
-        "text": "PARTIAL (IE payloads and addressing; not raw-byte envelopes). Bounded model checking through the real event loop: for each of 39 leaf IE types go-upf or the gtp5g driver decodes, a request whose one IE of that type carries a symbolic payload of every length 0..nominal+2 is marshalled, fed to PfcpServer.main (so its recover -> log.Fatalf is observed as 'the process exits'), with the no-op driver and with the gtp5g driver on a simulated kernel; afterwards a Heartbeat must be answered and a bystander session must be intact. Every reachable panic is a solver query on the faulting condition. Header-SEID addressing over the whole 64-bit range is decided by C04's request-header harnesses.",
-        "design_ref": "DESIGN.md section 6 C07 (b) and (c)",
-        "note": "Not covered: datagrams that are not a parsable PFCP message of a known type (go-pfcp message.Parse on raw symbolic bytes), several malformed IEs in one message, non-ASCII flow-description text. Known findings (open): two go-pfcp accessor panics reached through the gtp5g driver (Outer Header Creation with C-TAG/S-TAG, SDF Filter FD length) that PfcpServer.main turns into log.Fatalf.",
+        "text": "Bounded model checking through the real event loop, in two families. (a) Envelope: after a valid prefix that creates and deletes sessions, one datagram of n fully symbolic octets (quick: every n<=12 with any of the 256 message types, n in 8..14 with a dispatched type; thorough: n<=16 / 8..18), from the associated or an unknown peer, goes through rcvCh -> go-pfcp message.Parse (header, message and IE decoders executed symbolically) -> transactions -> dispatcher -> handlers -> driver; then a Heartbeat must be answered with the right type and sequence number and the bystander session must be intact unless the datagram addressed it. This family found the empty-datagram shutdown (n=0), fixed in 6889c4c. (b) IE payloads: for each of 39 leaf IE types go-upf or the gtp5g driver decodes, a request whose one IE of that type carries a symbolic payload of every length 0..nominal+2 is marshalled, fed to PfcpServer.main (so its recover -> log.Fatalf is observed as 'the process exits'), with the no-op driver and with the gtp5g driver on a simulated kernel; afterwards a Heartbeat must be answered and a bystander session must be intact. Every reachable panic is a solver query on the faulting condition. Header-SEID addressing over the whole 64-bit range is decided by C04's request-header harnesses.",
+        "design_ref": "DESIGN.md section 6 C07 (a), (b) and (c); section 0.4",
+        "note": "PARTIAL in depth, not in kind: raw datagrams longer than the stated n (the maximum is 1500 octets) and histories with more than one raw datagram are outside the bound; also not covered: several malformed IEs in one message, non-ASCII flow-description text. Known findings (open): two go-pfcp accessor panics reached through the gtp5g driver (Outer Header Creation with C-TAG/S-TAG, SDF Filter FD length) that PfcpServer.main turns into log.Fatalf.",
     },
 }
